@@ -25,9 +25,8 @@ ASSUMPTIONS = [
     "gates of the histories are Xgate, BSgate(pi/2, 0), MeasureHomodyne(select), MeasureFock — that each of them acts "
     "only on its targets is the subject of C05, here only the selection of rows / axes and their labels is at stake",
     "fock back end: cutoff 5, |<x>| <= 1, comparison of <x>/0.25 to the nearest integer within 0.06",
-    "explicit state(modes=...) is read as positions in the list of active modes (fock, gaussian); not checked on bosonic",
-    "histories keep at least one mode alive; a first program inheriting a register with holes (Program(parent) on a fresh "
-    "or reset engine) is not generated",
+    "explicit state(modes=...): positions in the list of active modes, in the requested order (fock, gaussian); mode indices, returned in ascending order (bosonic)",
+    "gaussian/bosonic histories measure one mode at a time (Gaussian measure_fock does not update the state, bosonic has no MeasureFock)",
 ]
 TRUSTED = ["modelled: Program._add_subsystems/_delete_subsystems/_test_regrefs/append/can_follow/Program(parent), "
            "Operation.__or__, New, Del, BaseEngine._run hand-over, ModeMap, FockBackend._remap_modes/add_mode/del_mode/"
@@ -107,7 +106,7 @@ def oracle(ctx, hist, real):
         elif e == "end":
             if ev.get("mismatch"):
                 if ob["r"] != "RuntimeError":
-                    fail("can-follow", f"event {k}: a fresh Program that does not match the register ran ({ob['r']})")
+                    fail("can-follow", f"event {k}: a program whose initial register does not match the simulator ran ({ob['r']})")
                 return tainted
             if ob["r"] != "ok":
                 if seg_nonempty:
@@ -150,7 +149,10 @@ def oracle(ctx, hist, real):
                     if po["gm"] != exp:
                         fail(f"backend-probe-modes:{be}", f"event {k}: after {pr['t']} {ms}: get_modes {po['gm']}, expected {exp}")
             for ms, so in zip(ev.get("modes", []), ob["smodes"]):
-                exp = [spec.state()[p] for p in ms]
+                if be == "bosonic":      # mode indices, returned in ascending order
+                    exp = [[i, spec.rows[i]] for i in sorted(ms)]
+                else:                    # positions in the list of active modes, returned in the requested order
+                    exp = [spec.state()[p] for p in ms]
                 if isinstance(so, dict):
                     fail(f"state-modes-raises:{be}", f"event {k}: state(modes={ms}) failed: {so}")
                 elif any(lbl not in live or spec.rows[lbl] != d for lbl, d in so) or len(so) != len(ms):
@@ -165,6 +167,12 @@ def oracle(ctx, hist, real):
         elif e == "reset":
             spec = reghist.Spec(ev["n"])
             prev_refs = [[i, True] for i in range(ev["n"])]
+            segs_run = 0
+            seg_nonempty = False
+        elif e == "resetkeep":
+            # the register (no holes, else the next run is refused) goes on, on a new simulator
+            if None not in spec.rows:
+                spec = reghist.Spec(len(spec.rows))
             segs_run = 0
             seg_nonempty = False
         elif e == "fresh":
@@ -202,18 +210,19 @@ def compare(ctx, hist, real, model, upto):
         e = ev["e"]
         if e == "poke":
             keys = ("use", "new")
-        elif e in ("end", "reset"):
+        elif e in ("end", "reset", "resetkeep"):
             keys = END_KEYS if ob["r"] == "ok" else ("r",)
-            if e == "reset":
+            if e != "end":
                 keys = tuple(x for x in keys if x != "ranReg")
         else:
             keys = PROG_KEYS
         a = {x: canon(mo.get(x)) for x in keys}
         b = {x: canon(ob.get(x)) for x in keys}
-        if e in ("end", "reset") and ob["r"] == "ok":
-            a["probe"], b["probe"] = canon(mo.get("probe")), canon(ob.get("probe"))
-            a["smodes"] = canon(mo.get("smodes"))
-            b["smodes"] = [s if not isinstance(s, dict) else {"err": s["err"]} for s in canon(ob.get("smodes"))]
+        if e in ("end", "reset", "resetkeep") and ob["r"] == "ok":
+            if e != "resetkeep":
+                a["probe"], b["probe"] = canon(mo.get("probe")), canon(ob.get("probe"))
+                a["smodes"] = canon(mo.get("smodes"))
+                b["smodes"] = [s if not isinstance(s, dict) else {"err": s["err"]} for s in canon(ob.get("smodes"))]
             if isinstance(b["state"], dict):
                 b["state"] = {"err": b["state"]["err"]}
         if a != b:
@@ -234,6 +243,14 @@ def one_history(ctx, sf, hist, batch):
         if "bad" in ev:
             ctx.tally(f"bad:{ev['bad']}")
     ctx.tally("segments", sum(1 for e in hist["events"] if e["e"] == "end"))
+    for ev, ob in zip(hist["events"], real):
+        if ev["e"] == "end":
+            if ev.get("mismatch"):
+                ctx.tally("end:refused-register-mismatch")
+            elif ob.get("r") == "ok":
+                ctx.tally("end:zero-modes" if not ob["gm"] else "end:with-deleted" if None in ob["internal"] else "end:no-deletion")
+                ctx.tally("state(modes)", len(ev.get("modes", [])))
+                ctx.tally("backend-probes", len(ev.get("probe", [])))
     if len(ctx.failures) > n0 and upto is None and not all(
             f["sig"] == "bosonic-later-segment-reinit" for f in ctx.failures[n0:]):
         upto = 0   # a property failure: do not also report it as model disagreement
